@@ -100,7 +100,10 @@ class Constant(Attribute):
                         "The value of an integer constant must be an integer; got %s" % self._value
                     )
             elif isinstance(self._value, _expression.String):
-                as_bytes = self._value.native_value.encode("utf8")
+                try:
+                    as_bytes = self._value.native_value.encode("utf8")
+                except UnicodeEncodeError:  # E.g., a lone surrogate
+                    as_bytes = b""
                 if len(as_bytes) != 1:
                     raise InvalidConstantValueError("A constant string must be exactly one ASCII character long")
 
